@@ -11,8 +11,7 @@ def q(rng, lim=16, den=4):
 
 
 def gen_matrix(rng, nmax=5, r=None, c=None):
-    n = r if r is not None else rng.choice([1, 2, 2, 3, 3, 4, 4, 5][: 3 + nmax])
-    n = min(n, nmax) if r is None else n
+    n = r if r is not None else rng.choice([k for k in [1, 2, 2, 3, 3, 4, 4, 5, 5, 6, 7] if k <= nmax])
     m = c if c is not None else n
     cls = rng.choice(CLASSES)
     M = [[Fraction(0)] * m for _ in range(n)]
